@@ -43,6 +43,59 @@ Theorem C16_zero_scale_float16 : forall (x : f16) (ss : bool),
 Proof. exact (qint8_zero_scale_finite 11 16 Hp11 Hpe11 ltac:(lia) ltac:(lia)). Qed.
 Print Assumptions C16_zero_scale_float16.
 
+(* the float8 types, float32 / float16 / bfloat16 working formats: for EVERY finite element and EVERY finite
+   non-negative scale with a representable grid (M*s <= largest float, M = 448 / 57344), a zero scale
+   included, the dequantized value is finite; with a zero scale it is exactly zero (proof through
+   nan_to_num, clamp, the cast to the storage format and back, and the product) *)
+From QV Require Import Proofs.C01Float8.
+Definition C16_float8_statement (prec emax : Z) (NF : Num (binary_float prec emax)) (q : qtype) (M : Z) : Prop :=
+  forall x s : binary_float prec emax,
+  is_finite x = true -> is_finite s = true -> (0 <= B2R s)%R -> (IZR M * B2R s <= Fmax prec emax)%R ->
+  is_finite (@symdq _ NF q x s) = true.
+
+Theorem C16_finite_e4m3_float32 : C16_float8_statement 24 128 Num32 qfloat8_e4m3fn 448.
+Proof. exact (e4m3_finite 24 128 Hp24 Hpe24 ltac:(lia) ltac:(lia)). Qed.
+Print Assumptions C16_finite_e4m3_float32.
+Theorem C16_finite_e4m3_float16 : C16_float8_statement 11 16 Num16 qfloat8_e4m3fn 448.
+Proof. exact (e4m3_finite 11 16 Hp11 Hpe11 ltac:(lia) ltac:(lia)). Qed.
+Print Assumptions C16_finite_e4m3_float16.
+Theorem C16_finite_e4m3_bfloat16 : C16_float8_statement 8 128 NumB16 qfloat8_e4m3fn 448.
+Proof. exact (e4m3_finite 8 128 Hp8 Hpe8 ltac:(lia) ltac:(lia)). Qed.
+Print Assumptions C16_finite_e4m3_bfloat16.
+Theorem C16_finite_e5m2_float32 : C16_float8_statement 24 128 Num32 qfloat8_e5m2 57344.
+Proof. exact (e5m2_finite 24 128 Hp24 Hpe24 ltac:(lia) ltac:(lia) ltac:(lia)). Qed.
+Print Assumptions C16_finite_e5m2_float32.
+Theorem C16_finite_e5m2_float16 : C16_float8_statement 11 16 Num16 qfloat8_e5m2 57344.
+Proof. exact (e5m2_finite 11 16 Hp11 Hpe11 ltac:(lia) ltac:(lia) ltac:(lia)). Qed.
+Print Assumptions C16_finite_e5m2_float16.
+Theorem C16_finite_e5m2_bfloat16 : C16_float8_statement 8 128 NumB16 qfloat8_e5m2 57344.
+Proof. exact (e5m2_finite 8 128 Hp8 Hpe8 ltac:(lia) ltac:(lia) ltac:(lia)). Qed.
+Print Assumptions C16_finite_e5m2_bfloat16.
+
+(* int2 / int4 (affine), float32 / float16 / bfloat16: a zero scale (constant or all-zero group, or a range
+   underflowing to zero) paired with the null zero-point the optimizer gives it: for EVERY finite element the
+   code is an integer of [0, 2^bits-1] stored exactly and the dequantized value is finite and exactly zero.
+   (For a positive scale, finiteness is part of C02_nearest_float*: Props/C02.v.) *)
+From QV Require Import Proofs.AffineReal Proofs.AffineProofs Proofs.AffineFloat.
+Open Scope Z_scope.
+Definition C16_affine_zero_statement (prec emax : Z) (NF : Num (binary_float prec emax)) : Prop :=
+  forall (bits : Z) (x : binary_float prec emax) (ss : bool),
+  let L := (2 ^ bits - 1)%Z in let ofZ := @n_of_Z _ NF in
+  (1 <= bits <= 7)%Z -> is_finite x = true ->
+  exists c : Z, (0 <= c <= L)%Z /\ @affq _ NF bits x (B754_zero ss) (ofZ 0%Z) = ofZ c /\
+    is_finite (@affdq _ NF (B754_zero ss) (ofZ c) (ofZ 0%Z)) = true /\
+    B2R (@affdq _ NF (B754_zero ss) (ofZ c) (ofZ 0%Z)) = 0%R.
+
+Theorem C16_affine_zero_scale_float32 : C16_affine_zero_statement 24 128 Num32.
+Proof. exact (affine_zero_scale_finite 24 128 Hp24 Hpe24 ltac:(lia) ltac:(lia)). Qed.
+Print Assumptions C16_affine_zero_scale_float32.
+Theorem C16_affine_zero_scale_float16 : C16_affine_zero_statement 11 16 Num16.
+Proof. exact (affine_zero_scale_finite 11 16 Hp11 Hpe11 ltac:(lia) ltac:(lia)). Qed.
+Print Assumptions C16_affine_zero_scale_float16.
+Theorem C16_affine_zero_scale_bfloat16 : C16_affine_zero_statement 8 128 NumB16.
+Proof. exact (affine_zero_scale_finite 8 128 Hp8 Hpe8 ltac:(lia) ltac:(lia)). Qed.
+Print Assumptions C16_affine_zero_scale_bfloat16.
+
 (* regression witnesses, evaluated on the generated code: float8 with a zero scale no longer stores NaN *)
 Example C16_f8_zero_row_is_finite :
   (r <- src_sym_forward (F:=f16) (H:=Num16) (T [2] [f16_of_bits 0; f16_of_bits 0]) qfloat8_e4m3fn None (T [] [f16_of_bits 0]) ;;
